@@ -114,7 +114,7 @@ def gen_cb(d: D, prof: dict, depth: int) -> Optional[dict]:
 
 
 def gen_script(d: D, prof: dict, depth: int) -> list:
-    n = d.i(0, 3)
+    n = d.i(prof.get("min_script", 0), 3)
     script: list = []
     for _ in range(n):
         r = d.i(0, 9)
@@ -190,7 +190,8 @@ def gen_spawn(d: D, prof: dict, depth: int, op: Optional[dict] = None) -> dict:
     if d.p(prof["p_plain"]) and "callfault" not in op["worker"] and "call_op" not in op["worker"]:
         op["plain"] = True
     if d.p(prof["p_gname"]):
-        op["gname"] = [d.i(0, 8), d.i(0, 2)]
+        gr = prof.get("gname_range", (8, 2))
+        op["gname"] = [d.i(0, gr[0]), d.i(0, gr[1])]
     return op
 
 
@@ -221,8 +222,8 @@ def gen_op(d: D, prof: dict, name: str, depth: int = 0) -> dict:
         r = d.i(0, 9)
         if r == 0:
             op["all"] = True
-        elif r < 4:
-            op["rel"] = d.i(-3, 3)
+        elif r < prof.get("stop_rel_share", 4):
+            op["rel"] = d.pick(prof.get("stop_rel", [-3, -2, -1, 0, 1, 2, 3]))
         else:
             op["n"] = d.i(-2, 5)
     elif name in ("flush", "close"):
